@@ -541,6 +541,7 @@ func runRoundTrip(c *Ctx, h rtHist) {
 		}
 		c.Clause("no_cross_talk")
 	}
+	lifecycleOracle(c, w)
 	var tr strings.Builder
 	for i, st := range h.Steps {
 		fmt.Fprintf(&tr, "%s:%d:%d:%s:%d;", st.Mode, st.EvSize, st.RespSize, vh.ErrName(invs[min(i, len(invs)-1)].Err), len(invs[min(i, len(invs)-1)].W.Body()))
